@@ -49,6 +49,9 @@ func runC05(r *fw.Run, p *fw.Program) {
 		c01ReadAt(sc, p)
 		r.Import(sc, "C01.ahead", "C05.transport", "", 12, nil)
 		r.Import(sc, "C01.readat", "C05.transport", "", 12, nil)
+		// the byte view bitiox.CopyBits reads from hands out bytes only from its carry buffer, in order
+		c01Bytes(sc, p)
+		r.Import(sc, "C01.bytes", "C05.transport", "", 12, nil)
 	}
 	// the bytes a value denotes are RootReader[Range]: decode() must rebase ranges AND retarget the reader of every
 	// value of a nested format to the enclosing buffer (borrowed from C03.rebase)
